@@ -1813,3 +1813,33 @@ package exec
 //@   ensures $HS3A$                                                           @spec-ascending
 //@   ensures $HS4$                                                            @set-union
 //@   ensures $HPOSTV$                                                         @value-is-Sem
+
+// ---------- exec/exec.go ----------
+
+// settings callbacks may only fill the maps of the ContextSettings they are given
+//@ extern call.exec.ContextApply(fn, c) ()
+//@   requires c != nil
+//@   modifies c
+
+// execRecover is execContext behind a recover(): the body is not translated (defer/recover); its contract is
+// execContext's, which holds because every handler is proved panic-free (safety obligations).
+//@ func execRecover(context, expr) (err)
+//@   trusted
+//@   uses sem
+//@   requires $HPRE$
+//@   modifies context.result
+//@   ensures $HPOSTE$
+//@   ensures $HPOSTV$
+
+//@ func Exec(cursor, expr, settings) (r, err)
+//@   property C18 C13 C15 C11
+//@   uses sem
+//@   requires cursor != nil && expr != nil && expr.BSR != nil && wf(expr.BSR)
+//@   requires forall k Int :: 0 <= k && k < len(settings) ==> settings[k] != nil       @options-are-functions
+//@   hint execRecover#1 context.root == cursor && context.contextPosition == 0 && context.contextSize == 1                       @context-node-position-1-size-1
+//@   hint execRecover#1 aeq(absv(context.result), ASet(qsingle(cursor)))                                                      @starts-from-the-given-node
+//@   ensures err == nil ==> r != nil                                          @never-nil-nil
+//@   ensures err != nil ==> r == nil
+//@   loop 0
+//@     invariant 0 - 1 <= #k && #k < len(settings) || (len(settings) == 0 && #k == 0 - 1)
+//@     decreases len(settings) - #k
